@@ -67,3 +67,10 @@ add("C15", "E5 space", "exploration",
     "All category pairs x dim-string pairs x {Duck, ndarray, Any} for the nesting law against a fresh user category whose dtype list is computed from the documented hierarchy (not jaxtyping's tables), 3-level nesting, unions in both spellings, TypeVars (bound / constraints / bare), the scalar ladder, and Scalar/ScalarLike/PRNGKeyArray against their documented definitions; ValueError exactly where the law says so; vectors under 3 prior contexts.",
     "Trusts vf/refs/dtypes_c15.py (universe = dtypes the docs name) and the member-by-member reading of Union; Python scalars in precision-specific categories and np.number outside Shaped/Num are don't-care.",
     "DESIGN.md §6 C15")
+
+ENGINES.append(dict(name="E4 histories", path="vf/checks/c05.py c12.py c11.py c18.py, vf/worlds.py", serves_properties=["C05"], kind_free_text="exhaustive operation-sequence / program enumeration with fault injection against a reference interpreter; BFS over worlds (import forest, bytecode cache)"))
+add("C05", "E4 histories", "model_checking",
+    "exhaustive enumeration of nested call/context programs executed on the real decorators and on a stack-of-dicts reference interpreter, compared after every statement",
+    "Every program of nesting depth 2 over {new-style typeguard/beartype, old-style double decorator, typechecker=None, dataclass __init__, method, classmethod, generator function, coroutine function, recursion, context block} x exits {return, Exception, BaseException, KeyboardInterrupt, SystemExit, GeneratorExit, ill-typed arguments, ill-typed return, non-binding call} with colliding axis names and manual checks before/inside/after is executed on the real API (bodies call back into the interpreter, so pushes and pops are the real ones); after every statement print_bindings() must equal the reference's top frame and the real stack depth the reference depth; {arg}-symbolic checks observe the argument memo; at the end the stack is empty and flags clear.",
+    "Reference interpreter RefInterp (in vf/checks/c05.py); generator/coroutine bodies are driven immediately after the call in the caller's context; quick uses a reduced kind/exit grammar at the same depth.",
+    "DESIGN.md §6 C05")
